@@ -425,6 +425,17 @@ func c12Registered(c *run.C) {
 		}
 		c.Observe("invalid_options_refused", 1)
 	}
+	if c.Idx%3 == 2 {
+		// the same types WITHOUT the option, interleaved in the same process:
+		// what an iterator with registered folders compiled for a type must
+		// not show through in an iterator without them (and vice versa)
+		if _, ok := foldAgainstModel(c, t, v, nil, false); !ok {
+			return
+		}
+		c.Observe("registered_types_folded_without_option", 1)
+		c.Nontrivial(gen.Mix(124, gen.HashString(valueString(v))))
+		return
+	}
 	if _, ok := foldAgainstModel(c, t, v, regConfig, false, gotype.Folders(foldRegA, foldRegB, foldRegC, foldRegD)); !ok {
 		return
 	}
@@ -598,7 +609,7 @@ func c12Zoo(c *run.C) {
 var c12Suites = []*run.Suite{
 	{Name: "generated", N: tierN(150000, 5000000), Case: c12Generated, Require: []string{"folds_equal_to_model", "type:tag-omitempty", "type:tag-inline", "type:tag-omit", "type:tag-name", "type:ptr", "type:interface", "type:map", "type:slice"}},
 	{Name: "sweep", N: tierN(len(c12FieldKinds)*len(c12Tags)*4*3, len(c12FieldKinds)*len(c12Tags)*4*3*10), Case: c12Sweep, Require: []string{"sweep_folds_equal_to_model"}},
-	{Name: "registered", N: tierN(5000, 100000), Case: c12Registered, Require: []string{"registered_folds_equal_to_model"}},
+	{Name: "registered", N: tierN(6000, 120000), Case: c12Registered, Require: []string{"registered_folds_equal_to_model", "registered_types_folded_without_option"}},
 	{Name: "registered-builtin", N: tierN(3000, 60000), Case: c12RegisteredBuiltin, Require: []string{"registered_builtin_folds_equal_to_model"}},
 	{Name: "zoo", N: tierN(20000, 400000), Case: c12Zoo, Require: []string{"zoo_folds_equal_to_model"}},
 }
